@@ -197,16 +197,64 @@ func NewInterners() *Interners {
 	return &Interners{S: parse.NewStringInterner(), A: parse.NewArgInterner()}
 }
 
-func doParse(text string, in *Interners) (t *parse.Tree, err error, pan string) {
+// ExtCell is one cell of an extension cardinality function: extension statement C may occur Min..Max
+// times under parent P (Max >= 2 means "n").
+type ExtCell struct {
+	P   string `json:"p"`
+	C   string `json:"c"`
+	Min int    `json:"min"`
+	Max int    `json:"max"`
+}
+
+// ExtCard is the third argument of parse.Parse: Nil = no function at all; otherwise a function built
+// from the cells (no cells: a function that returns an empty map for every statement).
+type ExtCard struct {
+	Nil   bool
+	Cells []ExtCell
+}
+
+// Func builds the parse.NodeCardinality the code is given.
+func (e *ExtCard) Func() parse.NodeCardinality {
+	if e == nil {
+		return nilCard
+	}
+	if e.Nil {
+		return nil
+	}
+	tab := map[parse.NodeType]map[parse.NodeType]parse.Cardinality{}
+	for _, c := range e.Cells {
+		p, k := parse.NodeTypeFromName(c.P, ""), parse.NodeTypeFromName(c.C, "")
+		if tab[p] == nil {
+			tab[p] = map[parse.NodeType]parse.Cardinality{}
+		}
+		card := parse.Cardinality{Start: '0', End: '1'}
+		if c.Min >= 1 {
+			card.Start = '1'
+		}
+		if c.Max >= 2 {
+			card.End = 'n'
+		}
+		tab[p][k] = card
+	}
+	return func(t parse.NodeType) map[parse.NodeType]parse.Cardinality {
+		out := map[parse.NodeType]parse.Cardinality{} // a fresh map per call: callers may keep what they get
+		for k, v := range tab[t] {
+			out[k] = v
+		}
+		return out
+	}
+}
+
+func doParse(text string, in *Interners, ext *ExtCard) (t *parse.Tree, err error, pan string) {
 	defer func() {
 		if r := recover(); r != nil {
 			pan = fmt.Sprint(r)
 		}
 	}()
 	if in != nil {
-		t, err = parse.ParseWithInterners(ParseName, text, nilCard, in.S, in.A)
+		t, err = parse.ParseWithInterners(ParseName, text, ext.Func(), in.S, in.A)
 	} else {
-		t, err = parse.Parse(ParseName, text, nilCard)
+		t, err = parse.Parse(ParseName, text, ext.Func())
 	}
 	return
 }
@@ -270,11 +318,17 @@ func Run(r *Rendered, wantCompile bool, companions []string) Obs {
 
 // RunWith is Run with the parse done through a shared pair of interners (nil: fresh ones).
 func RunWith(r *Rendered, wantCompile bool, companions []string, in *Interners) Obs {
+	return RunExt(r, wantCompile, companions, in, nil)
+}
+
+// RunExt is RunWith with the extension cardinality function the parse is given (nil: the harness's
+// default, a function that returns an empty map).
+func RunExt(r *Rendered, wantCompile bool, companions []string, in *Interners, ext *ExtCard) Obs {
 	var o Obs
 	o.ErrPath = "-"
 	o.ErrPathSeq = []int{}
 	o.Named = []string{}
-	t, err, pan := doParse(r.Text, in)
+	t, err, pan := doParse(r.Text, in, ext)
 	if pan != "" {
 		o.Panic = "parse: " + pan
 		return o
